@@ -119,6 +119,186 @@ def demangle_stream(chk, n):
             chk.nontrivial(["demangle", case["results"]])
 
 
+# ----------------------------------------------------------------------------------------------------------------
+# CLI stream: the same result sets through the real binary, so that what src/main.rs passes to output_* is observed
+# ----------------------------------------------------------------------------------------------------------------
+# file names main.rs gives each output type inside an -o directory
+CLI_NAMES = {"ade": "activedata", "lcov": "lcov", "coveralls": "coveralls", "coveralls+": "coveralls+", "files": "files", "covdir": "covdir",
+             "html": "html", "cobertura": "cobertura.xml", "cobertura-pretty": "cobertura.xml", "markdown": "markdown.md"}
+PLAIN_FN = ["f", "main", "area", "helper_1", "init", "x9", "Class_method", "do_it"]
+MANGLED_FN = ("_ZN3foo3barEv", "foo::bar")      # an Itanium name and what name-only demangling makes of it
+
+
+def render_lcov(entries):
+    """result-set entries -> lcov tracefile text (only what lcov carries: DA, BRDA block 0, FN, FNDA)"""
+    out = ["TN:"]
+    for _, rel, cov, _ in entries:
+        out.append("SF:" + bytes.fromhex(rel).decode())
+        for n, st, ex in cov["funcs"]:
+            out.append("FN:%d,%s" % (st, bytes.fromhex(n).decode()))
+        for n, st, ex in cov["funcs"]:
+            out.append("FNDA:%d,%s" % (3 if ex else 0, bytes.fromhex(n).decode()))
+        for l, v in cov["branches"]:
+            for k, b in enumerate(v):
+                out.append("BRDA:%d,0,%d,%s" % (l, k, "1" if b else "-"))
+        for l, c in cov["lines"]:
+            out.append("DA:%d,%d" % (l, c))
+        out.append("end_of_record")
+    return "\n".join(out) + "\n"
+
+
+def _read_tree(root):
+    import os
+    pages = {}
+    for d, _, fs in os.walk(root):
+        for f in fs:
+            rel = os.path.relpath(os.path.join(d, f), root)
+            if rel != "bulma.min.css":
+                pages[G.hx(rel)] = open(os.path.join(d, f), "rb").read().hex()
+    return pages
+
+
+def cli_stream(chk, n, prop):
+    """Result sets rendered as lcov input, sources under --source-dir, the real grcov binary with one -t type per run
+    (-o file) and several types at once (-o directory), --branch on/off, --precision 0-4 or default, --no-demangle on/off,
+    Coveralls service options; the reports are decoded by the same readers and judged by the same oracles as the engine stream."""
+    import os, subprocess, json as _json
+    rng = chk.rng
+    exe = vlib.build_cli()
+    known = {e["key"]: e for e in vlib.known_findings(prop) if e.get("status") == "known"}
+    stats = {"findings_in_known_classes": {}}
+    dist = {"cases": 0, "runs": 0, "single_type_runs": 0, "multi_type_runs": 0, "single_into_directory": 0, "branch_on": 0, "no_demangle": 0,
+            "default_precision": 0, "types": {}, "precision": {}}
+    for i in range(n):
+        root = vlib.scratch("%s_cli_%d" % (prop.lower(), i % 8))
+        src = os.path.join(root, "s r c")
+        os.makedirs(src)
+        entries = G.gen_resultset(rng, big=rng.random() < 0.3, branch_only=True, root_files=rng.random() < 0.3, abs_paths=False)
+        branch = rng.random() < 0.65
+        no_demangle = rng.random() < 0.5
+        prec = rng.choice([None, 0, 1, 2, 3, 4, 4])
+        p_eff = 2 if prec is None else prec
+        real_src = os.path.realpath(src)
+        truth_entries = []
+        for e in entries:
+            rel = bytes.fromhex(e[1]).decode()
+            cov = e[2]
+            # function names lcov and the demangler leave alone; one mangled name to observe --no-demangle
+            names = rng.sample(PLAIN_FN, len(cov["funcs"]))
+            if names and rng.random() < 0.5:
+                names[0] = MANGLED_FN[0]
+            cov["funcs"] = sorted([[G.hx(nm), st, ex] for nm, (_, st, ex) in zip(names, cov["funcs"])], key=lambda x: bytes.fromhex(x[0]))
+            path = os.path.join(src, rel)
+            os.makedirs(os.path.dirname(path), exist_ok=True)
+            with open(path, "w") as f:
+                f.write("".join("L%d\n" % k for k in range(1, e[3] + 1)))
+            shown = dict(cov, branches=cov["branches"] if branch else [],
+                         funcs=sorted([[G.hx(MANGLED_FN[1]) if (bytes.fromhex(nm).decode() == MANGLED_FN[0] and not no_demangle) else nm, st, ex]
+                                       for nm, st, ex in cov["funcs"]], key=lambda x: bytes.fromhex(x[0])))
+            truth_entries.append([G.hx(os.path.join(real_src, rel)), e[1], shown, e[3]])
+        # one or two tracefiles
+        k = rng.randrange(0, len(entries) + 1) if rng.random() < 0.5 else len(entries)
+        inputs = []
+        for j, part in enumerate([entries[:k], entries[k:]]):
+            if part or j == 0:
+                name = "in%d.info" % j
+                open(os.path.join(root, name), "w").write(render_lcov(part))
+                inputs.append(name)
+        # coveralls options
+        cv = {"token": "TK%d" % i if rng.random() < 0.6 else None, "service_name": None, "service_job_id": None,
+              "service_number": rng.choice([None, "42"]), "service_pull_request": rng.choice([None, "7"]), "commit_sha": rng.choice([None, "abc123"]),
+              "vcs_branch": rng.choice([None, "dev"]), "parallel": rng.random() < 0.4, "service_flag_name": rng.choice([None, "flag"])}
+        if cv["token"] is None or rng.random() < 0.4:
+            cv["service_name"], cv["service_job_id"] = "svc", "job%d" % i
+        cvargs = []
+        for key in ("token", "service_name", "service_job_id", "service_number", "service_pull_request", "commit_sha", "vcs_branch", "service_flag_name"):
+            if cv[key] is not None:
+                cvargs += ["--" + key.replace("_", "-"), cv[key]]
+        if cv["parallel"]:
+            cvargs.append("--parallel")
+        common = inputs + ["-s", src, "--threads", str(rng.choice([1, 2, 3]))] + (["--branch"] if branch else []) + \
+                 (["--precision", str(prec)] if prec is not None else []) + (["--no-demangle"] if no_demangle else [])
+        # the runs: several types into a directory, then a few types alone into a file
+        multi = [t for t in G.TYPES if t not in ("cobertura", "cobertura-pretty") and rng.random() < 0.8]
+        multi.insert(rng.randrange(len(multi) + 1), rng.choice(["cobertura", "cobertura-pretty"]))
+        if len(multi) < 2:
+            multi = ["lcov"] + multi
+        rng.shuffle(multi)
+        runs = [("multi", multi)] + [("single", [t]) for t in rng.sample(G.TYPES, 3)]
+        if rng.random() < 0.25:
+            runs.append(("single-dir", [rng.choice(G.TYPES)]))
+        dist["cases"] += 1
+        dist["branch_on"] += branch
+        dist["no_demangle"] += no_demangle
+        dist["default_precision"] += prec is None
+        dist["precision"][str(p_eff)] = dist["precision"].get(str(p_eff), 0) + 1
+        for r, (mode, types) in enumerate(runs):
+            chk.count()
+            dist["runs"] += 1
+            dist["multi_type_runs" if mode == "multi" else "single_into_directory" if mode == "single-dir" else "single_type_runs"] += 1
+            for t in types:
+                dist["types"][t] = dist["types"].get(t, 0) + 1
+            out = os.path.join(root, "out%d" % r)
+            if mode != "single":
+                os.makedirs(out)
+            needs_cv = any(t.startswith("coveralls") for t in types)
+            cmd = [exe] + common + ["-t", ",".join(types), "-o", out] + (cvargs if needs_cv or rng.random() < 0.2 else [])
+            replay = {"kind": "oracle", "engine": "cli", "cmd": cmd[1:], "mode": mode, "case": {"results": truth_entries, "precision": p_eff, "branch": branch},
+                      "inputs": {nm: open(os.path.join(root, nm)).read() for nm in inputs}}
+            try:
+                pr = subprocess.run(cmd, cwd=root, stdout=subprocess.PIPE, stderr=subprocess.PIPE, timeout=60, env=dict(os.environ, GIT_DIR="/nonexistent"))
+            except subprocess.TimeoutExpired:
+                chk.violation(dict(replay, clause="grcov terminates"), tag="cli")
+                continue
+            if pr.returncode != 0:
+                chk.violation(dict(replay, clause="grcov exits 0 and writes the reports", status=pr.returncode, stderr=pr.stderr.decode("utf-8", "replace")[-800:]), tag="cli")
+                continue
+            res = {}
+            F_extra = G.Findings()
+            for t in types:
+                path = out if mode == "single" else os.path.join(out, CLI_NAMES[t])
+                if t == "html":
+                    res[t] = _read_tree(path) if os.path.isdir(path) else None
+                else:
+                    res[t] = open(path, "rb").read().hex() if os.path.isfile(path) else None
+            if mode != "single":
+                made = sorted(os.listdir(out))
+                if made != sorted(CLI_NAMES[t] for t in types):
+                    F_extra.add("C03", "cli", "one report per requested type, under the type's file name, and nothing else in the output directory",
+                                "requested %s, directory holds %s" % (types, made))
+            if pr.stdout.strip():
+                F_extra.add("C03", "cli", "with -o nothing is printed on standard output", "%d bytes" % len(pr.stdout))
+            case_t = {"results": truth_entries, "types": types, "precision": p_eff, "branch": branch}
+            F, dec = G.evaluate_case(case_t, res)
+            F.items += F_extra.items
+            # options that only show in the text of the report
+            for t in types:
+                if res.get(t) is None or t == "html":
+                    continue
+                data = bytes.fromhex(res[t])
+                if t in ("cobertura", "cobertura-pretty"):
+                    pretty = b"\n" in data.strip()
+                    if pretty != (t == "cobertura-pretty"):
+                        F.add("C03", t, "pretty printing exactly for cobertura-pretty", "multi-line: %s" % pretty)
+                if t in ("coveralls", "coveralls+"):
+                    try:
+                        doc = _json.loads(data)
+                        exp = {"repo_token": cv["token"], "service_name": cv["service_name"], "service_job_id": cv["service_job_id"],
+                               "service_number": cv["service_number"] or "", "service_pull_request": cv["service_pull_request"] or "",
+                               "flag_name": cv["service_flag_name"], "parallel": cv["parallel"]}
+                        got = {k2: doc.get(k2) for k2 in exp}
+                        git = doc.get("git", {})
+                        if got != exp or git.get("branch") != (cv["vcs_branch"] or "master") or git.get("head", {}).get("id") != (cv["commit_sha"] or ""):
+                            F.add("C03", t, "the Coveralls service fields carry the command-line values", "options %s, report %s git %s" % (cv, got, git))
+                    except Exception as ex:
+                        F.add("C03", t, "the report can be decoded by an independent reader", repr(ex))
+            bad = G.report_findings(chk, F, prop, known, stats, replay, "cli")
+            if not bad and any(t[2]["lines"] for t in truth_entries):
+                chk.nontrivial(["cli", mode, types, truth_entries, p_eff, branch, no_demangle])
+    chk.extra["cli_stream"] = dist
+    chk.extra["cli_known_class_findings"] = stats["findings_in_known_classes"]
+
+
 def run(chk, prop=PID):
     chk.proofs()
     quick = chk.tier == "quick"
@@ -132,6 +312,7 @@ def run(chk, prop=PID):
     selftest(chk)
     if prop == PID:
         demangle_stream(chk, 25 if quick else 300)
+    cli_stream(chk, 45 if quick else 500, prop)
     dist = {"result_sets": len(cases), "empty_set": 0, "files": 0, "files_without_lines": 0, "absolute_paths": 0, "root_files": 0,
             "lines": 0, "counts_ge_2^63": 0, "counts_2^64-1": 0, "branch_lines": 0, "branch_only_lines": 0, "functions": 0,
             "precision": {}}
@@ -164,7 +345,11 @@ def run(chk, prop=PID):
                        "{0,1,2^32-1,2^32,2^32+1,2^53+1,2^63-1,2^63,2^63+1,2^64-2,2^64-1} and random 64-bit values; branch vectors of 1-6 outcomes on counted and on "
                        "count-less lines; 0-4 functions with odd names; precision 0-4), 8 fixed boundary sets, a slice free of the known classes, and a one-file universe "
                        "(lines within {1,2,3} x 5 boundary counts, complete in the thorough tier); every set goes through all 10 output types of the real output_* functions; "
-                       "evaluation = one result set through all types (oracle) or through the Gallina encoders (correspondence); non-trivial = a set with at least one instrumented line; distinct by content")
+                       "CLI stream: result sets without absolute paths rendered as one or two lcov tracefiles with their sources under --source-dir, the real grcov binary run with one -t type and -o file, "
+                       "with several types and -o directory (file names per type), --branch on/off, --precision 0-4 or default, --no-demangle on/off (one mangled name), --threads 1-3 and the Coveralls "
+                       "service options, the reports judged by the same readers and oracles (plus: printed precision, branch columns, function detail only in coveralls+, pretty printing only in "
+                       "cobertura-pretty, service fields, nothing else in the output directory); "
+                       "evaluation = one result set through all types (oracle), through the Gallina encoders (correspondence), or one CLI run; non-trivial = a set with at least one instrumented line; distinct by content")
     chk.cov["trusted_base"] = ["Coq kernel; vm_compute for the correspondence", "serde_json / quick-xml / Tera / tabled serialisation of the documents (read back by Python json, xml.etree, html.parser and own lcov/markdown readers)",
                                "std::path component splitting (paths enter the model as component lists computed by the driver; only plain paths are generated)",
                                "impl_run harness (e_report.rs calls the public output_* functions as main.rs does), Python readers and oracle (self-tested by seeded corruptions)"]
@@ -173,7 +358,8 @@ def run(chk, prop=PID):
                        "function and file names are printable, without control characters or '|' in file names (escaping is C18)",
                        "branch vectors are non-empty (a line with an empty vector is not representable in lcov, coveralls or Cobertura)",
                        "HTML: every source file exists with at least as many lines as its highest instrumented line (the property's hypothesis)",
-                       "demangle = false; Coveralls service fields fixed; git metadata empty"]
+                       "engine stream: demangle = false, Coveralls service fields fixed; CLI stream: plain C function names plus one Itanium-mangled name (the demangler itself is not modelled), "
+                       "values lcov can carry (parse_lcov is C04/C05), no absolute paths, git metadata empty (GIT_DIR points nowhere)"]
 
 
 def replay(chk, path):
